@@ -35,6 +35,8 @@ OPS = [
 def candidates():
     out = []
     for f in FILES:
+        if os.path.basename(f) in ('tests.rs', 'test.rs') or '/tests/' in f:
+            continue
         lines = open(os.path.join(REPO, f)).read().split('\n')
         in_tests = False
         for i, line in enumerate(lines):
@@ -45,7 +47,11 @@ def candidates():
             code = line.split('//')[0]
             if not code.strip() or code.strip().startswith(('#[', 'use ', '///', 'pub use', 'extern ')):
                 continue
+            # lines that are (part of) signatures / bounds: arithmetic operators there are trait sums
+            boundish = bool(re.search(r"\b(impl|where|fn|struct|trait|type|dyn|enum)\b|\?Sized|\bSized\b|: Flat|Unpin|'\w+ \+|\+ '\w", code))
             for pat, rep in OPS:
+                if boundish and pat in (r' \+ ', r' - ', r' < ', r' > ', r' <= ', r' >= '):
+                    continue
                 for m in re.finditer(pat, code):
                     new = code[:m.start()] + rep + code[m.end():] + line[len(code):]
                     if new != line:
@@ -55,7 +61,7 @@ def candidates():
                 out.append(dict(file=f, line=i + 1, old=line, new=re.match(r'\s*', line).group(0) + '// (statement removed)', op='delete statement'))
     return out
 
-def sample(n=420, seed=20260927):
+def sample(n=600, seed=20260927):
     c = candidates()
     rnd = random.Random(seed)
     rnd.shuffle(c)
